@@ -221,6 +221,33 @@ func (g *c07Gen) capture(vis []string) []*mj.Node {
 	return out
 }
 
+// captureMapElement: the value of one iteration over a map with struct (or array) elements is kept in an
+// outer variable together with its key; whatever the iteration order, the two still belong together when the
+// loop has moved on and after it has ended (a variable keeps the value it was given).
+func (g *c07Gen) captureMapElement() []*mj.Node {
+	cap, capk, cnt := g.id("cap"), g.id("capk"), g.id("cnt")
+	kv, vv := g.id("k"), g.id("v")
+	name, member := "MU", mj.Chain(mj.Var(cap), "Name")
+	g.p.Vars["MU"] = mj.Recipe{T: "map[string]user", Keys: []string{"ua", "ub", "uc", "ud"}}
+	if g.n(0, 1, "capArrayElems") == 0 {
+		name, member = "MP", mj.Index(mj.Var(cap), mj.Num(0))
+		g.p.Vars["MP"] = mj.Recipe{T: "map[string]pair", Keys: []string{"pa", "pb", "pc"}}
+	}
+	g.labels["capture-map-element:"+name] = true
+	pick := g.n(0, 1, "capMapIter")
+	rn := &mj.Node{K: "range", E: mj.Var(name), Decl: true, Names: []string{kv, vv}}
+	rn.Body = []*mj.Node{
+		mj.If(mj.Bin("==", mj.Var(cnt), mj.Num(float64(pick))), []*mj.Node{mj.Set(cap, mj.Var(vv)), mj.Set(capk, mj.Var(kv))}, nil),
+		mj.Set(cnt, mj.Bin("+", mj.Var(cnt), mj.Num(1))),
+		mj.If(mj.Bin(">", mj.Var(cnt), mj.Num(float64(pick))), []*mj.Node{mj.Text("(during:"), mj.Print(mj.Bin("==", member, mj.Var(capk))), mj.Text(")")}, nil),
+	}
+	return []*mj.Node{mj.Let(cap, mj.Str("none")), mj.Let(capk, mj.Str("none")), mj.Let(cnt, mj.Num(0)), rn,
+		mj.Text("(after:"), mj.Print(mj.Bin("==", member, mj.Var(capk))), mj.Text(")"),
+		// a second loop over a map of the same type must not change what was captured either
+		{K: "range", E: mj.Var(name), Body: []*mj.Node{mj.Text(".")}},
+		mj.Text("(after another loop:"), mj.Print(mj.Bin("==", member, mj.Var(capk))), mj.Text(")")}
+}
+
 func (g *c07Gen) newFile(body []*mj.Node) string {
 	g.nfile++
 	path := fmt.Sprintf("/inc/f%d.jet", g.nfile)
@@ -348,7 +375,11 @@ func (g *c07Gen) stmts(depth int, vis []string) []*mj.Node {
 			out = append(out, g.probes(vis)...)
 			g.labels["read-after-try"] = true
 		case k == 13:
-			out = append(out, g.capture(vis)...)
+			if g.n(0, 2, "captureKind") == 0 {
+				out = append(out, g.captureMapElement()...)
+			} else {
+				out = append(out, g.capture(vis)...)
+			}
 		default:
 			out = append(out, g.probes(vis)...)
 		}
